@@ -41,7 +41,7 @@ SPLIT_KINDS = ["tuple:2", "tuple:3", "multi:s,b,t", "multi:s,a2,l2x2", "mixed"]
 def cases(ctx):
     rng = ctx.rng("cases")
     for i in range(ctx.pick(640, 12000)):
-        names, cs = gens.gen_cases(rng)
+        names, cs = gens.gen_cases(rng, exotic=True)
         sub = []
         if rng.random() < 0.45:
             free = [a for a in gens.ARG_POOL if a not in names]
